@@ -16,6 +16,7 @@ RULE = ("(i) exhaustive alignment sweep: for each width 2/3/4 (e-acute, euro sig
         "serialised components with long values. Oracle: independent byte-level checker (CRLF termination, <=75 "
         "octets, each physical line valid UTF-8, exactly one added SP, removing CRLF+1 octet restores the original) "
         "and the library's own unfolding. Non-trivial: the line needs at least one fold (>75 octets); distinct by hash.")
+RULE += ' Rounds 7-8: every line is also re-serialised after being read from HTAB/LF-folded text and after being decoded from bytes with encoding= (utf-8, latin-1, cp1252, utf-16); lines assembled by Contentline.from_parts; non-ASCII property names.'
 ASSUMPTIONS = ["content lines start with a property-name character: not with SP/TAB/CR and not with U+FEFF (a leading U+FEFF in bytes is a BOM, cf. C09)", "lines contain no LF (premise)"]
 REQUIRED_CLASSES = ["multi-octet-adjacent-to-boundary", "whitespace-at-fold-point", "kind:line", "kind:lines", "kind:component"]
 
